@@ -31,6 +31,13 @@ Decides (from the syntax trees, nothing is run):
       Also: the whole worker is quantified through quantified_resources at (self.cores * 1000, self.instance_memory(), 0).
   R5  every attribute of self that the billing path reads is set by __init__ from constructor parameters (whose round trip R1 decides)
       or other such attributes, or is a class constant / property: from_dict returns Cls(...), so anything else is lost on reload.
+  R6  whole worker == the job that fills it: instance_memory() is the `memory` of the machine-table entry; the scheduler gives the job that fills a pool
+      worker <cloud>_cores_mcpu_to_memory_bytes(cores*1000, ...) bytes.  Both are evaluated symbolically per table entry / comprehension (engines/c13facts.AffEval:
+      affine forms k*cores + [lo, hi] with rounding slack, helpers and per-core tables followed) and must be the same form; a difference of at least one
+      MiB (the billing unit of the memory resource) for every size is a violation, anything in between is undecided.  Entries that cannot be pool
+      workers (no per-core figure, or a name the pool naming function does not produce) are skipped: there both sides read the same table entry.
+Also R1: a collection-valued constructor argument that from_dict (R4: create) builds as a ONE-SHOT iterator (map / filter / generator expression / iter) and that
+__init__ stores unmaterialised: the first traversal consumes it, so a reloaded (created) config bills nothing from the second quantification on.
 Does not decide: external (per-job) storage pricing, float prices, legacy-version branches of from_dict, callers outside the analysed files.
 """
 from __future__ import annotations
@@ -47,14 +54,15 @@ META = dict(
          'tests) and comparing from_dict o to_dict with the identity structurally (many-to-one writer + one-to-many reader = lossy); dispatcher tables compared '
          'with the set of classes; to_quantified_resource executed abstractly through the MRO over symbolic dicts with provenance (fresh / memo / state) and '
          'aliasing: in-place updates of retained dicts, memo keys and stores into billed fields are classified, and the resulting quantity expressions are typed '
-         'in a superadditive monotone fragment. Level `other`: prices are numeric and not decided; purity + scale give the whole-worker identity only under the '
+         'in a superadditive monotone fragment; the machine-table memory of every pool machine type is compared, as an affine form in the core count with rounding slack, '
+         'with the per-core memory the scheduler gives jobs; reloaded / created collections must be re-iterable. Level `other`: prices are numeric and not decided; purity + scale give the whole-worker identity only under the '
          'stated assumptions.',
     note='Trusted: CPython ast; engines/absdom.walk_block; engines/c13facts.DictEval (abstract evaluation, declines outside its fragment). Assumes instance attributes used as '
          'factors (storage_in_gib, number, cores) are non-negative integers, that elements of a collection attribute vary independently, and that callers outside '
          'the analysed files only read the dicts returned by quantified_resources. Not decided: external storage (billed per job on top of the worker), rates, '
          'legacy-version branches of from_dict.',
     technique='static analysis: writer/reader table agreement with structural identity of the composition + dispatch exhaustiveness + alias/provenance analysis of '
-              'returned dicts + superadditivity typing of integer expressions',
+              'returned dicts + superadditivity typing of integer expressions + affine normal forms of the memory tables',
     design_ref='DESIGN.md §3 C13',
 )
 
@@ -149,7 +157,83 @@ def _init_map(ctx: Ctx, m: pf.Module, cls: ast.ClassDef) -> Tuple[List[str], Dic
             v = s.value
             if isinstance(tg, ast.Attribute) and isinstance(tg.value, ast.Name) and tg.value.id == 'self' and isinstance(v, ast.Name) and v.id in params:
                 store.setdefault(v.id, tg.attr)
+            elif isinstance(tg, ast.Attribute) and isinstance(tg.value, ast.Name) and tg.value.id == 'self' and _materialised_param(v, params) is not None:
+                # self.x = list(x) / tuple(x) / [*x] / [e for e in x]: an eager element-wise copy of the parameter (same elements, re-iterable)
+                pm = _materialised_param(v, params)
+                store.setdefault(pm, tg.attr)  # type: ignore[arg-type]
+                _MATERIALISED.add((cls.name, pm))  # type: ignore[arg-type]
     return params, store
+
+
+_MATERIALISED: Set[Tuple[str, str]] = set()   # (class, constructor parameter) that __init__ copies into a list / tuple before storing it
+
+
+def _materialised_param(v: ast.AST, params: Sequence[str]) -> Optional[str]:
+    if isinstance(v, ast.Call) and pf.dotted(v.func) in ('list', 'tuple') and len(v.args) == 1 and not v.keywords and isinstance(v.args[0], ast.Name) and v.args[0].id in params:
+        return v.args[0].id
+    if isinstance(v, (ast.List, ast.Tuple)) and len(v.elts) == 1 and isinstance(v.elts[0], ast.Starred) and isinstance(v.elts[0].value, ast.Name) and v.elts[0].value.id in params:
+        return v.elts[0].value.id
+    if isinstance(v, ast.ListComp) and len(v.generators) == 1 and not v.generators[0].ifs and pf.nsrc(v.elt) == pf.nsrc(v.generators[0].target) \
+            and isinstance(v.generators[0].iter, ast.Name) and v.generators[0].iter.id in params:
+        return v.generators[0].iter.id
+    return None
+
+
+_LAZY_CALLS = ('map', 'filter', 'iter', 'zip', 'enumerate', 'reversed', 'itertools.chain', 'chain', 'itertools.islice', 'islice', 'itertools.starmap', 'itertools.filterfalse')
+
+
+def _eager_form(e: ast.AST) -> Tuple[ast.AST, Optional[str]]:
+    """(e with lazy single-pass constructions rewritten as the list comprehension that yields the same elements, what made it lazy or None).
+    list(X) / tuple(X) / [*X] around a lazy X materialise it: the rewritten comprehension is returned with laziness None."""
+    def fresh(avoid: ast.AST) -> str:
+        used = pf.names_in(avoid)
+        i = 0
+        while f'_e{i}' in used:
+            i += 1
+        return f'_e{i}'
+
+    def comp_of(x: ast.AST) -> Optional[ast.ListComp]:
+        if isinstance(x, ast.GeneratorExp):
+            return ast.copy_location(ast.ListComp(elt=x.elt, generators=x.generators), x)
+        if isinstance(x, ast.Call) and pf.dotted(x.func) == 'map' and len(x.args) == 2 and not x.keywords:
+            f, it = x.args
+            while isinstance(it, ast.Call) and pf.dotted(it.func) == 'iter' and len(it.args) == 1 and not it.keywords:
+                it = it.args[0]
+            v = fresh(x)
+            if isinstance(f, ast.Lambda) and len(f.args.args) == 1 and not f.args.defaults and not f.args.vararg and not f.args.kwarg:
+                tgt = f.args.args[0].arg
+                elt: ast.AST = f.body
+            elif isinstance(f, (ast.Name, ast.Attribute)):
+                tgt = v
+                elt = ast.Call(func=f, args=[ast.Name(id=v, ctx=ast.Load())], keywords=[])
+            else:
+                return None
+            return ast.copy_location(ast.fix_missing_locations(ast.ListComp(elt=elt, generators=[ast.comprehension(target=ast.Name(id=tgt, ctx=ast.Store()), iter=it, ifs=[], is_async=0)])), x)
+        if isinstance(x, ast.Call) and pf.dotted(x.func) == 'iter' and len(x.args) == 1 and not x.keywords:
+            if isinstance(x.args[0], ast.ListComp):
+                return x.args[0]
+            inner = comp_of(x.args[0])
+            if inner is not None:
+                return inner
+            v = fresh(x)
+            return ast.copy_location(ast.fix_missing_locations(ast.ListComp(elt=ast.Name(id=v, ctx=ast.Load()), generators=[ast.comprehension(target=ast.Name(id=v, ctx=ast.Store()), iter=x.args[0], ifs=[], is_async=0)])), x)
+        return None
+    if isinstance(e, ast.Call) and pf.dotted(e.func) in ('list', 'tuple') and len(e.args) == 1 and not e.keywords:
+        c = comp_of(e.args[0])
+        if c is not None:
+            return c, None
+        return e, None
+    if isinstance(e, (ast.List, ast.Tuple)) and len(e.elts) == 1 and isinstance(e.elts[0], ast.Starred):
+        c = comp_of(e.elts[0].value)
+        if c is not None:
+            return c, None
+        return e, None
+    c = comp_of(e)
+    if c is not None:
+        return c, ('a generator expression' if isinstance(e, ast.GeneratorExp) else f'`{pf.dotted(e.func)}(...)`')  # type: ignore[union-attr]
+    if isinstance(e, ast.Call) and pf.dotted(e.func) in _LAZY_CALLS:
+        return e, f'`{pf.dotted(e.func)}(...)`'
+    return e, None
 
 
 def _is_class_constant(m: pf.Module, cls: ast.ClassDef, e: ast.AST) -> bool:
@@ -419,6 +503,21 @@ def _filter_eval(t: ast.AST, var: str, cname: str, tag: str) -> Optional[bool]:
 def _check_roundtrip(ctx: Ctx, m: pf.Module, cls: ast.ClassDef, dispatcher: Optional[str], billing_reads: Optional[Dict[str, str]] = None,
                      nested: Optional[List[Tuple[str, str]]] = None) -> None:
     """billing_reads: attribute -> an expression of the billing path that reads it (None: every attribute counts)."""
+    pending: List[Tuple[str, str, int]] = []
+    try:
+        _check_roundtrip_inner(ctx, m, cls, dispatcher, billing_reads, nested, pending)
+    except AnalysisError:
+        # a shape the comparison does not recognise: what was already established as broken is still reported
+        seen: Set[str] = set()
+        for role, msg, line in pending:
+            if role not in seen:
+                seen.add(role)
+                ctx.bad('R1', f'{m.rel}::{cls.name}::{role}', msg, m.path, line)
+        raise
+
+
+def _check_roundtrip_inner(ctx: Ctx, m: pf.Module, cls: ast.ClassDef, dispatcher: Optional[str], billing_reads: Optional[Dict[str, str]],
+                           nested: Optional[List[Tuple[str, str]]], problems: List[Tuple[str, str, int]]) -> None:
     C = cls.name
     meths = _methods(cls)
     W = _written(ctx, m, cls)
@@ -450,6 +549,8 @@ def _check_roundtrip(ctx: Ctx, m: pf.Module, cls: ast.ClassDef, dispatcher: Opti
                 bound = {n.id for g in node.generators for n in ast.walk(g.target) if isinstance(n, ast.Name)}
                 inner = {k: v for k, v in env.items() if k not in bound}
                 return subst_names_shallow(node, inner)
+
+            visit_GeneratorExp = visit_ListComp
         return T().visit(copy.deepcopy(e))
 
     def subst_names_shallow(node: ast.ListComp, env: Dict[str, ast.AST]) -> ast.AST:
@@ -504,8 +605,7 @@ def _check_roundtrip(ctx: Ctx, m: pf.Module, cls: ast.ClassDef, dispatcher: Opti
     ctx.need(len(atoms) <= 5, f'{base}.from_dict: too many tests')
     free = [absdom.atom_key(a) for a in atoms]
     n_paths = 0
-    problems: List[Tuple[str, str, int]] = []   # (role, message, line)
-    oks: List[Tuple[str, object]] = []
+    oks: List[Tuple[str, object]] = []          # problems: (role, message, line), owned by the caller
     seen_paths: Set[Tuple[int, ...]] = set()
     for fv in absdom.valuations(free):
         executed: List[ast.stmt] = []
@@ -560,6 +660,20 @@ def _check_roundtrip(ctx: Ctx, m: pf.Module, cls: ast.ClassDef, dispatcher: Opti
             a2 = res(a)
             attr = store.get(p)
             ctx.need(attr is not None, f'{base}.__init__: parameter `{p}` is not stored in an attribute (unrecognised shape)')
+            a2, lazy = _eager_form(a2)
+            if lazy is not None:
+                role2 = f'{p} reloaded as a re-iterable collection'
+                if (C, p) in _MATERIALISED:
+                    oks.append((role2, f'from_dict passes {lazy}, __init__ copies it into a list before storing self.{attr}'))
+                elif billing_reads is not None and attr not in billing_reads:
+                    pass   # never traversed by the billing path
+                else:
+                    reader = f' (billing: `{billing_reads[attr]}`)' if billing_reads and attr in billing_reads else ' (InstanceConfig.quantified_resources: `for resource in self.resources`)' if attr == 'resources' else ''
+                    problems.append((role2, f"from_dict passes {lazy} - `{short(pf.nsrc(res(a)), 90)}` - as `{p}`, and __init__ stores it unchanged in self.{attr}: that is a ONE-SHOT iterator, "
+                                     f"not the list the original object holds. The first traversal of self.{attr}{reader} on the reloaded object consumes it, every later traversal sees "
+                                     f"nothing. History: store, reload, bill two jobs (or call to_dict / is_valid_configuration first): the second quantification returns no entries for "
+                                     f"these elements while the original object keeps billing them - a reloaded configuration does not bill identical quantities. Materialise it "
+                                     f"(list comprehension / list(...))", a2.lineno))
             k = _data_key(a2, data)
             keys_for_attr = [kk for kk, vv in W.items() if pf.nsrc(vv) == f'self.{attr}']
             if k is not None:
@@ -1419,6 +1533,36 @@ def _check_consumers(ctx: Ctx, mbase: pf.Module, ic_classes: List[Tuple[pf.Modul
                                                                                                                       'dicts_retained_by_resources': shared_elem_why is not None})
 
 
+def _check_created_collections(ctx: Ctx, m: pf.Module, cls: ast.ClassDef) -> None:
+    """R4 (identical calls bill identically also on a freshly created object): every collection the constructor receives from create() is a materialised,
+    re-iterable container, or __init__ copies it into one - a one-shot iterator stored in self.<attr> is consumed by the first quantification."""
+    fn = _methods(cls).get('create')
+    init = _init_fn(cls)
+    if fn is None or init is None:
+        return
+    params, store = _init_map(ctx, m, cls)
+    ann, _ = _param_info(init)
+    coll = [p_ for p_ in params if _is_collection_annotation(ann.get(p_))]
+    if not coll:
+        return
+    calls = [c for c in pf.calls_in(fn) if pf.dotted(c.func) in (cls.name, 'cls')]
+    for c in calls:
+        pairs: List[Tuple[str, ast.AST]] = [(params[i], a) for i, a in enumerate(c.args) if i < len(params) and not isinstance(a, ast.Starred)]
+        pairs += [(k.arg, k.value) for k in c.keywords if k.arg in params]
+        for p_, a in pairs:
+            if p_ not in coll:
+                continue
+            v = pf.resolve_expr(fn, a)
+            _, lazy = _eager_form(v)
+            cons = f'{m.rel}::{cls.name}.create::{p_} is a re-iterable collection'
+            if lazy is None or (cls.name, p_) in _MATERIALISED:
+                ctx.ok('R4', cons, short(pf.nsrc(v), 60))
+            else:
+                ctx.bad('R4', cons, f'create() passes {lazy} - `{short(pf.nsrc(v), 80)}` - as `{p_}` and __init__ stores it unchanged in self.{store.get(p_, p_)}: a one-shot iterator. The first '
+                        f'quantified_resources(...) consumes it, every later call bills nothing for these elements: identical calls do not bill identically (the whole-worker bill '
+                        f'computed first is complete, every job after it is billed []), and to_dict() of the used object stores an empty list', m.path, a.lineno)
+
+
 def _check_whole_worker_sites(ctx: Ctx, m: pf.Module) -> None:
     """R4: the whole worker is quantified by the very function that bills a job, at cpu = cores*1000, memory = instance_memory(), no external storage; with
     purity (R4) and worker fraction 1024 at that point (R3 scale) a job that fills the worker is billed exactly the worker."""
@@ -1461,6 +1605,207 @@ def _check_whole_worker_sites(ctx: Ctx, m: pf.Module) -> None:
     ctx.need(sites >= 1, f'{m.rel}: no whole-worker quantification (quantified_resources(self.cores * 1000, ...)) found')
 
 
+# --------------------------------------------------------------------------------------
+# R6: the whole worker's memory (machine table) is the memory of the job that fills it (cores x per-core memory)
+# --------------------------------------------------------------------------------------
+
+MACHINE_TABLES = {
+    'gcp': dict(file='batch/batch/cloud/gcp/resource_utils.py', table='MACHINE_TYPE_TO_PARTS', lookup='gcp_machine_type_to_parts', job_fn='gcp_cores_mcpu_to_memory_bytes',
+                namer='family_worker_type_cores_to_gcp_machine_type', family_const='GCP_MACHINE_FAMILY'),
+    'azure': dict(file='batch/batch/cloud/azure/resource_utils.py', table='MACHINE_TYPE_TO_PARTS', lookup='azure_machine_type_to_parts', job_fn='azure_cores_mcpu_to_memory_bytes',
+                  namer=None, family_const=None),
+}
+MIB = 1024 * 1024
+_R6_DEFERRED: List[str] = []
+
+
+def _machine_entries(ctx: Ctx, mu: pf.Module, table: str) -> List[dict]:
+    """one record per entry (or per comprehension-built family of entries) of the machine table: key (template), constructor keywords, loop variable and its values"""
+    out: List[dict] = []
+
+    def ctor_kwargs(call: ast.AST, where: str) -> Dict[str, ast.expr]:
+        ctx.need(isinstance(call, ast.Call) and isinstance(call.func, ast.Name), f'{mu.rel}::{table}: entry {where} is not a constructor call')
+        cname = call.func.id  # type: ignore[union-attr]
+        cls = mu.cls(cname)
+        init = _methods(cls).get('__init__')
+        ctx.need(init is not None, f'{mu.rel}::{cname} has no __init__')
+        ps = [a.arg for a in init.args.args][1:]  # type: ignore[union-attr]
+        kw: Dict[str, ast.expr] = {}
+        for i, a in enumerate(call.args):  # type: ignore[union-attr]
+            ctx.need(i < len(ps) and not isinstance(a, ast.Starred), f'{mu.rel}::{table}: entry {where}: positional arguments do not match {cname}.__init__')
+            kw[ps[i]] = a
+        for k in call.keywords:  # type: ignore[union-attr]
+            ctx.need(k.arg is not None, f'{mu.rel}::{table}: entry {where}: ** in constructor call')
+            kw[k.arg] = k.value  # type: ignore[index]
+        # the attribute each parameter is stored in (self.x = x)
+        stored = {}
+        for st in init.body:  # type: ignore[union-attr]
+            if isinstance(st, ast.Assign) and len(st.targets) == 1 and cf.self_attr(st.targets[0]) is not None and isinstance(st.value, ast.Name) and st.value.id in ps:
+                stored[st.value.id] = cf.self_attr(st.targets[0])
+        return {stored.get(k, k): v for k, v in kw.items()}
+
+    def add_dict(node: ast.AST, origin: str, depth: int = 2) -> None:
+        if isinstance(node, ast.Dict):
+            for k, v in zip(node.keys, node.values):
+                if k is None:
+                    ctx.need(isinstance(v, ast.Name) and depth > 0, f'{mu.rel}::{table}: `**{pf.nsrc(v)}` is not a module-level table')
+                    add_dict(mu.global_assign(v.id), v.id, depth - 1)  # type: ignore[union-attr]
+                else:
+                    out.append(dict(key=k, kw=ctor_kwargs(v, pf.nsrc(k)), var=None, values=None, line=v.lineno, origin=origin))
+        elif isinstance(node, ast.DictComp):
+            ctx.need(len(node.generators) == 1 and isinstance(node.generators[0].target, ast.Name) and not node.generators[0].ifs,
+                     f'{mu.rel}::{origin}: comprehension shape not recognised')
+            it = node.generators[0].iter
+            if isinstance(it, ast.Name):
+                it = mu.global_assign(it.id)
+            ctx.need(isinstance(it, (ast.List, ast.Tuple)) and all(isinstance(x, ast.Constant) and isinstance(x.value, int) and x.value >= 1 for x in it.elts),  # type: ignore[union-attr]
+                     f'{mu.rel}::{origin}: the comprehension does not range over a literal list of positive integers')
+            out.append(dict(key=node.key, kw=ctor_kwargs(node.value, origin), var=node.generators[0].target.id, values=[x.value for x in it.elts], line=node.value.lineno, origin=origin))  # type: ignore[union-attr]
+        else:
+            raise AnalysisError(f'{mu.rel}::{origin}: machine table is neither a dict literal nor a dict comprehension')
+    add_dict(mu.global_assign(table), table)
+    return out
+
+
+def _check_machine_memory(ctx: Ctx, cloud: str, mic: pf.Module, ic: ast.ClassDef) -> None:
+    """R6.  The whole worker is billed quantified_resources(cores*1000, instance_memory(), 0) with instance_memory() = the machine table's `memory`; the job that
+    fills a pool worker is given cores*1000 mcpu and <cloud>_cores_mcpu_to_memory_bytes(cores*1000, ...) bytes.  The memory resource bills bytes // MiB, so the two
+    figures must agree for every pool machine type.  Both are evaluated SYMBOLICALLY (affine form in the core count with rounding slack, one evaluation per table
+    entry / comprehension) - nothing is run."""
+    spec = MACHINE_TABLES[cloud]
+    mu = pf.load(spec['file'])
+    ctx.unit('files', 1)
+    base = f"{spec['file']}::{spec['table']}"
+    # instance_memory() reads the table entry of the config's machine type
+    meths = _methods(ic)
+    im = meths.get('instance_memory')
+    ctx.need(im is not None, f'{mic.rel}::{ic.name}: no instance_memory()')
+    rets = [n for n in pf.walk_shallow(im) if isinstance(n, ast.Return)]
+    srcs = _attr_sources(_init_fn(ic))  # type: ignore[arg-type]
+    okm = len(rets) == 1 and rets[0].value is not None and isinstance(rets[0].value, ast.Attribute) and cf.self_attr(rets[0].value.value) is not None
+    if okm:
+        holder = cf.self_attr(rets[0].value.value)  # type: ignore[union-attr]
+        field = rets[0].value.attr  # type: ignore[union-attr]
+        hs = srcs.get(holder)
+        okm = isinstance(hs, ast.Call) and pf.dotted(hs.func) == spec['lookup'] and len(hs.args) == 1
+    if not okm:
+        _R6_DEFERRED.append(f'{mic.rel}::{ic.name}.instance_memory() is not `self.<parts>.memory` with <parts> = {spec["lookup"]}(machine type) (whole-worker memory not followed)')
+        return
+    lk = mu.func(spec['lookup'])
+    lrets = [n for n in pf.walk_shallow(lk) if isinstance(n, ast.Return) and n.value is not None]
+    ok_lookup = len(lrets) == 1 and spec['table'] in pf.nsrc(lrets[0].value) and (isinstance(lrets[0].value, ast.Subscript) or (isinstance(lrets[0].value, ast.Call)
+                                                                                  and isinstance(lrets[0].value.func, ast.Attribute) and lrets[0].value.func.attr == 'get'))
+    if not ok_lookup:
+        _R6_DEFERRED.append(f'{mu.rel}::{spec["lookup"]} does not return {spec["table"]}[machine_type] / .get(machine_type)')
+        return
+    # which table fields the instance config uses as cores / worker type
+    def field_of(attr: str) -> Optional[str]:
+        v = srcs.get(attr)
+        if isinstance(v, ast.Attribute) and isinstance(v.value, ast.Call) and pf.dotted(v.value.func) == spec['lookup']:
+            return v.attr
+        return None
+    f_cores = field_of('cores')
+    wt_ret = [n for n in pf.walk_shallow(meths['worker_type']) if isinstance(n, ast.Return)] if 'worker_type' in meths else []
+    f_wt = field_of(cf.self_attr(wt_ret[0].value) or '') if len(wt_ret) == 1 and wt_ret[0].value is not None else None
+    if f_cores is None or f_wt is None:
+        _R6_DEFERRED.append(f'{mic.rel}::{ic.name}: self.cores / worker_type() are not fields of {spec["lookup"]}(machine type)')
+        return
+    job_fn = mu.func(spec['job_fn'])
+    jps = [a.arg for a in job_fn.args.args]
+    ctx.need(len(jps) >= 2 and 'cpu' in jps[0], f'{mu.rel}::{spec["job_fn"]}: parameters {jps}')
+    pool_family = None
+    if spec['family_const']:
+        g = mu.global_assign(spec['family_const'])
+        ctx.need(isinstance(g, ast.Constant) and isinstance(g.value, str), f'{mu.rel}::{spec["family_const"]} is not a string literal')
+        pool_family = g.value  # type: ignore[union-attr]
+    namer_tpl = None
+    if spec['namer']:
+        nf = mu.func(spec['namer'])
+        nr = [n for n in pf.walk_shallow(nf) if isinstance(n, ast.Return) and n.value is not None]
+        ctx.need(len(nr) == 1 and isinstance(nr[0].value, ast.JoinedStr), f'{mu.rel}::{spec["namer"]} does not return an f-string')
+        namer_tpl = (nr[0].value, [a.arg for a in nf.args.args])
+    n_checked = n_skipped = 0
+    for ent in _machine_entries(ctx, mu, spec['table']):
+        kw = ent['kw']
+        label = pf.fstring_template(ent['key'], lambda h: '{' + pf.nsrc(h) + '}') or pf.nsrc(ent['key'])
+        ctx.need(field in kw and f_cores in kw and f_wt in kw, f'{base}: entry {label} lacks {field} / {f_cores} / {f_wt}')
+        env: Dict[str, object] = {ent['var']: cf.Aff(1, 0, 0)} if ent['var'] else {}
+        ev = cf.AffEval(mu, dict(env))
+        try:
+            cores = ev.num(kw[f_cores])
+            whole = ev.num(kw[field])
+            consts = {k: cf.AffEval.constant(cf.AffEval(mu, dict(env)).ev(v)) for k, v in kw.items() if k not in (field, f_cores) and isinstance(v, ast.Constant)}
+        except (cf.AffUndecided, cf.NotApplicable) as e:
+            _R6_DEFERRED.append(f'{base}: entry {label}: {e} (not decided)')
+            continue
+        # is this machine type one a pool worker can have?  (the scheduler names pool machines by the namer and passes the pool machine family)
+        args: Dict[str, object] = {jps[0]: cf.Aff(cores.k * 1000, cores.lo * 1000, cores.hi * 1000)}
+        pool_ok = True
+        for p_ in jps[1:]:
+            if 'family' in p_ and 'machine_family' in consts:
+                args[p_] = consts['machine_family']
+                pool_ok = pool_ok and (pool_family is None or consts['machine_family'] == pool_family)
+            elif 'worker_type' in p_ or 'family' in p_:
+                args[p_] = consts.get(f_wt, cf._NOCONST)
+            else:
+                args[p_] = cf._NOCONST
+        if any(v is cf._NOCONST for v in args.values()):
+            _R6_DEFERRED.append(f'{base}: entry {label}: cannot bind the parameters {jps} of {spec["job_fn"]} from the entry')
+            continue
+        if namer_tpl is not None and pool_ok:
+            tpl, nps = namer_tpl
+            bind = {}
+            for p_ in nps:
+                if 'family' in p_:
+                    bind[p_] = str(consts.get('machine_family'))
+                elif 'worker_type' in p_:
+                    bind[p_] = str(consts.get(f_wt))
+                else:
+                    bind[p_] = '{' + pf.nsrc(kw[f_cores]) + '}'
+            want = pf.fstring_template(tpl, lambda h: bind.get(pf.nsrc(h), '{?}'))
+            got = pf.fstring_template(ent['key'], lambda h: '{' + pf.nsrc(h) + '}')
+            pool_ok = want is not None and got is not None and want == got
+        if not pool_ok:
+            n_skipped += 1
+            continue
+        try:
+            job = cf.AffEval(mu, {}).call(job_fn, [], args)
+        except cf.NotApplicable:
+            n_skipped += 1       # no per-core figure for this family / worker type: not a pool machine (job-private instances read the table on both sides)
+            continue
+        except cf.AffUndecided as e:
+            _R6_DEFERRED.append(f'{base}: entry {label}: {spec["job_fn"]}: {e} (not decided)')
+            continue
+        if not isinstance(job, cf.Aff):
+            _R6_DEFERRED.append(f'{base}: entry {label}: {spec["job_fn"]} does not evaluate to a number')
+            continue
+        n_checked += 1
+        cons = f'{base}::{label}::memory == cores x per-core memory'
+        dk, dlo, dhi = whole.k - job.k, whole.lo - job.hi, whole.hi - job.lo
+        # for every x >= 1:  difference in [dk*x + dlo, dk*x + dhi]
+        x0 = min(ent['values']) if ent['values'] else 1
+        if dk == 0 and dlo == 0 and dhi == 0:
+            ctx.ok('R6', cons, {'whole_worker_bytes': repr(whole), 'job_bytes': repr(job), 'x': ent['var']})
+            continue
+        less = (dk <= 0 and dk * x0 + dhi <= -MIB)       # whole worker below the job for every size
+        more = (dk >= 0 and dk * x0 + dlo >= MIB)
+        if less or more:
+            wit_c = x0 if ent['var'] else int(cores.lo)
+            w_mib = (whole.k * x0 + whole.hi) / MIB if ent['var'] else whole.hi / MIB
+            j_mib = (job.k * x0 + job.lo) / MIB if ent['var'] else job.lo / MIB
+            ctx.bad('R6', cons, f"the machine table gives {label} `{field}={short(pf.nsrc(kw[field]), 60)}` (what instance_memory() returns, i.e. what the WHOLE WORKER is billed for), "
+                    f"but a job that fills such a pool worker is given {spec['job_fn']}(cores*1000, ...) = cores x per-core memory: the two differ by at least 1 MiB for every size "
+                    f"(per core: {float(whole.k / MIB) if ent['var'] else float(whole.lo / MIB / max(cores.lo, 1)):.1f} vs {float(job.k / MIB) if ent['var'] else float(job.lo / MIB / max(cores.lo, 1)):.1f} MiB; "
+                    f"e.g. {wit_c} cores: worker ~{float(w_mib):.0f} MiB, job ~{float(j_mib):.0f} MiB). The memory resource bills bytes // MiB, so "
+                    + ("the jobs that fill the worker are billed MORE memory than the whole worker" if less else "a job using the whole worker is billed LESS memory than the whole worker")
+                    + " - 'a job using the whole worker is billed exactly the whole worker' fails", mu.path, ent['line'])
+        else:
+            _R6_DEFERRED.append(f'{base}: entry {label}: whole-worker memory {whole!r} and job memory {job!r} are not proved equal nor apart by a MiB (not decided)')
+    ctx.need(n_checked >= 1, f'{base}: no pool machine type was compared (anchor changed)')
+    ctx.unit('machine_types_compared', n_checked)
+    ctx.unit('machine_types_not_pool', n_skipped)
+
+
 def run(ctx: Ctx) -> None:
     ctx.explanation = ('from_dict is executed abstractly on the symbolic dictionary written by to_dict of the same class (all test valuations that the written '
                        'constants do not decide), every constructor argument is followed through __init__ back to the written key and from_dict o to_dict is compared with the '
@@ -1472,14 +1817,19 @@ def run(ctx: Ctx) -> None:
     ctx.rule('R2', 'resource dispatchers cover every class TYPE with that class\'s from_dict; TYPEs distinct; created resource classes covered', 56)
     ctx.rule('R3', 'every billed quantity is a monotone superadditive function of (cpu, memory, worker fraction); worker fraction = 1024*cpu // (cores*1000)', 19)
     ctx.rule('R4', 'quantification is a pure function of (self fields, arguments): no dict retained between calls (memoised / stored state) is updated in place, no billed field is '
-             'changed, memo keys cover what the value depends on; the whole worker is quantified by the same function at (cores*1000, instance_memory(), 0)', 18)
+             'changed, memo keys cover what the value depends on; the whole worker is quantified by the same function at (cores*1000, instance_memory(), 0)', 20)
     ctx.rule('R5', 'every attribute the billing path reads is set by __init__ from constructor parameters (whose round trip R1 decides) or is a class constant', 27)
+    ctx.rule('R6', 'whole worker == the job that fills it: for every pool machine type the machine table memory (instance_memory()) equals cores x the per-core memory '
+             'the scheduler gives jobs (<cloud>_cores_mcpu_to_memory_bytes at cores*1000), compared as affine forms in the core count', 41)
+    ctx.assume('float arithmetic in the memory tables is read as real arithmetic (errors far below the 1 MiB billing unit)')
     ctx.assume('instance attributes used as factors/divisors (storage_in_gib, number, cores) are non-negative (cores positive) integers')
     ctx.assume('external storage is billed per job on top of the worker and is outside the packing clause')
     ctx.assume('callers outside the analysed files only read the dicts returned by quantified_resources (a memoised quantification that nobody updates in place is accepted)')
     ctx.assume('the elements of a collection attribute (e.g. the resource name per disk tier) can differ independently of each other')
     _CLASSES.clear()
     _TYPED_DICTS.clear()
+    _MATERIALISED.clear()
+    del _R6_DEFERRED[:]
     _reported_events.clear()
     _IC_CLASSES.clear()
     mres = pf.load(F_RES)
@@ -1526,8 +1876,12 @@ def run(ctx: Ctx) -> None:
                 if a is not None and isinstance(n.ctx, ast.Load) and a not in _methods(ics[0]) and a not in _methods(_CLASSES['InstanceConfig'][1]):  # type: ignore[attr-defined]
                     ic_reads.setdefault(a, f'self.{a} in {fn.name}')
         _check_billing_attrs(ctx, mic, ics[0], ic_reads, 'quantified_resources')
+        _check_created_collections(ctx, mic, ics[0])
+        _check_machine_memory(ctx, cloud, mic, ics[0])
         ctx.unit('classes')
     ctx.unit('files', 2)
     _check_superadditive(ctx, quants)
     for a in sorted(_ASSUMED):
         ctx.assume(a)
+    if _R6_DEFERRED:
+        raise AnalysisError('; '.join(dict.fromkeys(_R6_DEFERRED)))
